@@ -62,6 +62,13 @@ def oracle_conserve(inp):
     e1 = W.energy(r)
     ok = abs(e1 - e0) <= TOL[W.tol_key(inp)] * max(e0, 1e-30) if e0 > 0 else e1 <= 1e-20
     out.append(('energy_conserved', ok, e0, e1))
+    if inp['api'] == 'torch' and min(inp['shape'][-2:]) >= 5:
+        # 'without cropping' also covers padding without cropping: zero_padding = [True, False, False] propagates on the doubled grid and returns it
+        rp = W.t_prop(u, inp['method'], inp['z'], inp['dx'], inp['lam'], zero_padding=(True, False, False))
+        want = list(inp['shape'][:-2]) + [2 * inp['shape'][-2], 2 * inp['shape'][-1]]
+        out.append(('padded_uncropped_shape', list(rp.shape) == want, want, list(rp.shape)))
+        ep = W.energy(rp)
+        out.append(('energy_conserved_padded_uncropped', abs(ep - e0) <= TOL['torch'] * max(e0, 1e-30) if e0 > 0 else ep <= 1e-20, e0, ep))
     if inp['api'] == 'torch' and len(inp['shape']) == 2:
         # the same kernel object handed to consecutive calls (first through a binary aperture, then without): the second call still
         # conserves energy and the kernel the caller holds is still unit-modulus (observation point: modulus of get_propagation_kernel)
